@@ -191,7 +191,14 @@ impl Kind {
 pub enum SnapFmt {
     Bincode,
     Json,
+    /// the generator is one member of a larger snapshot: `(generator, marker, generator, marker)`
+    /// in bincode - what comes after it in the stream must still be readable
+    BincodeFramed,
+    /// the same inside a JSON array
+    JsonFramed,
 }
+
+pub const FRAME_MARK: u32 = 0x5EA1_ED01;
 
 // ------------------------------------------------------------------------------------------
 // Guard around every call into the code under test
@@ -321,6 +328,8 @@ macro_rules! m_snap {
             match $fmt {
                 SnapFmt::Bincode => Some(bincode::serialize($s).expect("bincode serialize")),
                 SnapFmt::Json => Some(serde_json::to_vec($s).expect("json serialize")),
+                SnapFmt::BincodeFramed => Some(bincode::serialize(&($s, FRAME_MARK, $s, FRAME_MARK ^ 1)).expect("bincode serialize")),
+                SnapFmt::JsonFramed => Some(serde_json::to_vec(&($s, FRAME_MARK, $s, FRAME_MARK ^ 1)).expect("json serialize")),
             }
         }
         #[cfg(not(feature = "snap"))]
@@ -338,9 +347,20 @@ macro_rules! m_restore {
     (yes, $w:ident, $t:ty, $fmt:expr, $bytes:expr) => {{
         #[cfg(feature = "snap")]
         {
+            let framed = |r: Result<($t, u32, $t, u32), String>| -> Result<$t, String> {
+                let (_first, m1, second, m2) = r?;
+                if m1 != FRAME_MARK || m2 != (FRAME_MARK ^ 1) {
+                    return Err(format!("what follows the generator in the snapshot was read back as {:#x} / {:#x}", m1, m2));
+                }
+                // continue with the SECOND member: it only parses correctly if the first one consumed
+                // exactly its own bytes
+                Ok(second)
+            };
             let r: Result<$t, String> = match $fmt {
                 SnapFmt::Bincode => bincode::deserialize($bytes).map_err(|e| e.to_string()),
                 SnapFmt::Json => serde_json::from_slice($bytes).map_err(|e| e.to_string()),
+                SnapFmt::BincodeFramed => framed(bincode::deserialize($bytes).map_err(|e| e.to_string())),
+                SnapFmt::JsonFramed => framed(serde_json::from_slice($bytes).map_err(|e| e.to_string())),
             };
             r.map(|g| Box::new($w(g)) as Box<dyn DynGen>)
         }
@@ -353,6 +373,45 @@ macro_rules! m_restore {
     (no, $w:ident, $t:ty, $fmt:expr, $bytes:expr) => {{
         let _ = ($fmt, $bytes);
         Err::<Box<dyn DynGen>, String>("type is not serialisable".into())
+    }};
+}
+
+// Construction is written as a macro over the CONCRETE type and uses the path-call syntax a user
+// writes (`Xoshiro256PlusPlus::from_seed(seed)`), not a generic `T: SeedableRng` function: an
+// inherent associated function of the same name added to a type takes precedence at such call
+// sites, and a generic harness would never see it.
+macro_rules! construct_m {
+    ($t:ty, $seed:expr, $wrap:expr, $okc:path, $errc:path) => {{
+        let wrap = $wrap;
+        match $seed {
+            SeedSpec::Bytes(b) => {
+                let mut s = <$t as SeedableRng>::Seed::default();
+                assert_eq!(s.as_mut().len(), b.len(), "harness: seed length");
+                s.as_mut().copy_from_slice(b);
+                $okc(wrap(<$t>::from_seed(s)), None)
+            }
+            SeedSpec::U64(x) => $okc(wrap(<$t>::seed_from_u64(*x)), None),
+            SeedSpec::FromRng(src) => {
+                let mut s = SimSource::new(src.clone());
+                let g = <$t>::from_rng(&mut s);
+                let rep = SourceReport { pos: s.pos, calls: s.calls, log: s.log, fired: false };
+                $okc(wrap(g), Some(rep))
+            }
+            SeedSpec::TryFromRng(src) => {
+                let mut s = FallibleSource::new(src.clone());
+                let r = <$t>::try_from_rng(&mut s);
+                let rep = SourceReport {
+                    pos: s.inner.pos,
+                    calls: s.inner.calls,
+                    log: s.inner.log,
+                    fired: s.fired,
+                };
+                match r {
+                    Ok(g) => $okc(wrap(g), Some(rep)),
+                    Err(e) => $errc(e.0, rep),
+                }
+            }
+        }
     }};
 }
 
@@ -394,7 +453,7 @@ macro_rules! det_gens {
 
         fn construct_inner(kind: Kind, seed: &SeedSpec) -> Constructed {
             match kind {
-                $( Kind::$kind => construct_t::<$t, _>(seed, |g| Box::new($w(g)) as Box<dyn DynGen>), )*
+                $( Kind::$kind => construct_m!($t, seed, |g: $t| Box::new($w(g)) as Box<dyn DynGen>, Constructed::Ok, Constructed::Err), )*
                 Kind::Jitter => panic!("harness: Jitter is not SeedableRng"),
             }
         }
@@ -469,42 +528,6 @@ pub enum Constructed {
     Ok(Box<dyn DynGen>, Option<SourceReport>),
     /// try_from_rng returned Err(token)
     Err(u64, SourceReport),
-}
-
-fn construct_t<T, W>(seed: &SeedSpec, wrap: W) -> Constructed
-where
-    T: SeedableRng,
-    W: Fn(T) -> Box<dyn DynGen>,
-{
-    match seed {
-        SeedSpec::Bytes(b) => {
-            let mut s = T::Seed::default();
-            assert_eq!(s.as_mut().len(), b.len(), "harness: seed length");
-            s.as_mut().copy_from_slice(b);
-            Constructed::Ok(wrap(T::from_seed(s)), None)
-        }
-        SeedSpec::U64(x) => Constructed::Ok(wrap(T::seed_from_u64(*x)), None),
-        SeedSpec::FromRng(src) => {
-            let mut s = SimSource::new(src.clone());
-            let g = T::from_rng(&mut s);
-            let rep = SourceReport { pos: s.pos, calls: s.calls, log: s.log, fired: false };
-            Constructed::Ok(wrap(g), Some(rep))
-        }
-        SeedSpec::TryFromRng(src) => {
-            let mut s = FallibleSource::new(src.clone());
-            let r = T::try_from_rng(&mut s);
-            let rep = SourceReport {
-                pos: s.inner.pos,
-                calls: s.inner.calls,
-                log: s.inner.log,
-                fired: s.fired,
-            };
-            match r {
-                Ok(g) => Constructed::Ok(wrap(g), Some(rep)),
-                Err(e) => Constructed::Err(e.0, rep),
-            }
-        }
-    }
 }
 
 /// Construct under the panic guard.
@@ -836,43 +859,12 @@ pub enum CoreConstructed {
     Err(u64, SourceReport),
 }
 
-fn core_t<T: SeedableRng>(seed: &SeedSpec, wrap: impl Fn(T) -> Box<dyn DynCore>) -> CoreConstructed {
-    match seed {
-        SeedSpec::Bytes(b) => {
-            let mut s = T::Seed::default();
-            s.as_mut().copy_from_slice(b);
-            CoreConstructed::Ok(wrap(T::from_seed(s)), None)
-        }
-        SeedSpec::U64(x) => CoreConstructed::Ok(wrap(T::seed_from_u64(*x)), None),
-        SeedSpec::FromRng(src) => {
-            let mut s = SimSource::new(src.clone());
-            let g = T::from_rng(&mut s);
-            let rep = SourceReport { pos: s.pos, calls: s.calls, log: s.log, fired: false };
-            CoreConstructed::Ok(wrap(g), Some(rep))
-        }
-        SeedSpec::TryFromRng(src) => {
-            let mut s = FallibleSource::new(src.clone());
-            let r = T::try_from_rng(&mut s);
-            let rep = SourceReport {
-                pos: s.inner.pos,
-                calls: s.inner.calls,
-                log: s.inner.log,
-                fired: s.fired,
-            };
-            match r {
-                Ok(g) => CoreConstructed::Ok(wrap(g), Some(rep)),
-                Err(e) => CoreConstructed::Err(e.0, rep),
-            }
-        }
-    }
-}
-
 pub fn construct_core(kind: CoreKind, seed: &SeedSpec) -> Result<CoreConstructed, SutFail> {
     guard(|| match kind {
-        CoreKind::Hc128Core => core_t::<rand_hc::Hc128Core>(seed, |c| Box::new(CHc128(c, Default::default()))),
-        CoreKind::IsaacCore => core_t::<rand_isaac::isaac::IsaacCore>(seed, |c| Box::new(CIsaac(c, Default::default()))),
+        CoreKind::Hc128Core => construct_m!(rand_hc::Hc128Core, seed, |c: rand_hc::Hc128Core| Box::new(CHc128(c, Default::default())) as Box<dyn DynCore>, CoreConstructed::Ok, CoreConstructed::Err),
+        CoreKind::IsaacCore => construct_m!(rand_isaac::isaac::IsaacCore, seed, |c: rand_isaac::isaac::IsaacCore| Box::new(CIsaac(c, Default::default())) as Box<dyn DynCore>, CoreConstructed::Ok, CoreConstructed::Err),
         CoreKind::Isaac64Core => {
-            core_t::<rand_isaac::isaac64::Isaac64Core>(seed, |c| Box::new(CIsaac64(c, Default::default())))
+            construct_m!(rand_isaac::isaac64::Isaac64Core, seed, |c: rand_isaac::isaac64::Isaac64Core| Box::new(CIsaac64(c, Default::default())) as Box<dyn DynCore>, CoreConstructed::Ok, CoreConstructed::Err)
         }
     })
 }
@@ -882,8 +874,8 @@ pub fn restore_core(kind: CoreKind, fmt: SnapFmt, bytes: &[u8]) -> Result<Box<dy
     {
         fn de<T: serde::de::DeserializeOwned>(fmt: SnapFmt, bytes: &[u8]) -> Result<T, String> {
             match fmt {
-                SnapFmt::Bincode => bincode::deserialize(bytes).map_err(|e| e.to_string()),
-                SnapFmt::Json => serde_json::from_slice(bytes).map_err(|e| e.to_string()),
+                SnapFmt::Bincode | SnapFmt::BincodeFramed => bincode::deserialize(bytes).map_err(|e| e.to_string()),
+                SnapFmt::Json | SnapFmt::JsonFramed => serde_json::from_slice(bytes).map_err(|e| e.to_string()),
             }
         }
         match kind {
